@@ -11,9 +11,10 @@ import (
 
 // Rep: "aff" [X,Y]; "proj" [X,Y,Z]; "ext" [X,Y,Z,T] (T=XY/Z); "ext1" = ext with Z=1; "bool".
 type Rep struct {
-	Sys string
-	C   []ofield.El
-	B   bool
+	Sys  string
+	C    []ofield.El
+	B    bool
+	Note string // Sys "note": a contract violation observed by the adapter
 }
 
 func repBool(b bool) Rep { return Rep{Sys: "bool", B: b} }
